@@ -300,25 +300,30 @@ use crate::chars::verif_charmodel::{any_char, model_fold, model_is_upper, model_
 
 pub fn new_inner_unicode<const POS: usize, const CASE: u8, const NORM: bool, const ESC: bool>() {
     // three characters: two symbolic ASCII characters and one symbolic two-byte character of the
-    // model domain (ä Ä ß é É à) at position POS.  The UTF-8 bytes are laid out directly so that
+    // model domain (ä Ä ß é É à µ ς ſ Σ σ) at position POS.  The UTF-8 bytes are laid out directly so that
     // no symbolic UTF-8 encoding/validation is needed.
     const L: usize = 3;
     let a0: u8 = kani::any();
     let a1: u8 = kani::any();
     kani::assume(a0 < 128 && a1 < 128);
     let pick: u8 = kani::any();
-    let (second, wide) = match pick % 6 {
-        0 => (0xA4u8, 'ä'),
-        1 => (0x84, 'Ä'),
-        2 => (0x9F, 'ß'),
-        3 => (0xA9, 'é'),
-        4 => (0x89, 'É'),
-        _ => (0xA0, 'à'),
+    let (lead, second, wide) = match pick % 11 {
+        0 => (0xC3u8, 0xA4u8, 'ä'),
+        1 => (0xC3, 0x84, 'Ä'),
+        2 => (0xC3, 0x9F, 'ß'),
+        3 => (0xC3, 0xA9, 'é'),
+        4 => (0xC3, 0x89, 'É'),
+        5 => (0xC3, 0xA0, 'à'),
+        6 => (0xC2, 0xB5, 'µ'),
+        7 => (0xCF, 0x82, 'ς'),
+        8 => (0xC5, 0xBF, 'ſ'),
+        9 => (0xCE, 0xA3, 'Σ'),
+        _ => (0xCF, 0x83, 'σ'),
     };
     let (bytes, cs): ([u8; 4], [char; 3]) = match POS {
-        0 => ([0xC3, second, a0, a1], [wide, a0 as char, a1 as char]),
-        1 => ([a0, 0xC3, second, a1], [a0 as char, wide, a1 as char]),
-        _ => ([a0, a1, 0xC3, second], [a0 as char, a1 as char, wide]),
+        0 => ([lead, second, a0, a1], [wide, a0 as char, a1 as char]),
+        1 => ([a0, lead, second, a1], [a0 as char, wide, a1 as char]),
+        _ => ([a0, a1, lead, second], [a0 as char, a1 as char, wide]),
     };
     let s = unsafe { std::str::from_utf8_unchecked(&bytes) };
     let case = match CASE {
